@@ -111,7 +111,7 @@ func runCrashCase(rep *vevid.Report, f *vevid.Flags, c *Case) {
 	}()
 	w, err := newWorld(dir, c)
 	if err != nil {
-		vevid.Fatal("open engine: %v", err)
+		vevid.OpFailed("open engine: %v", err)
 	}
 	rec.w = w
 	w.jobObserver = rec.jobDone
@@ -148,7 +148,7 @@ func runCrashCase(rep *vevid.Report, f *vevid.Flags, c *Case) {
 		}
 		if st == 'F' {
 			if err := w.register(obs); err != nil {
-				vevid.Fatal("%s: after %s: %v", c, done, err)
+				vevid.OpFailed("%s: after %s: %v", c, done, err)
 			}
 		}
 		if !check(rep, c, w, obs, "crash/live-", scen, done, st == 'r') {
